@@ -157,11 +157,21 @@ func SVGAttrs(t *rapid.T, hostile bool) string {
 	return b.String()
 }
 
+var svgGeometry = map[string][]string{
+	"rect": {"x", "y", "width", "height"}, "circle": {"cx", "cy", "r"}, "ellipse": {"cx", "cy", "rx", "ry"}, "line": {"x1", "y1", "x2", "y2"},
+}
+
 var svgShapes = []string{"rect", "circle", "ellipse", "line", "polyline", "polygon", "path", "g", "use", "text", "tspan", "image", "a", "svg", "switch", "symbol", "foo"}
 
 func svgElement(t *rapid.T, depth int, hostile bool) string {
 	tag := rapid.SampledFrom(svgShapes).Draw(t, "tag")
 	attrs := SVGAttrs(t, hostile)
+	// the geometry attributes of the basic shapes, with numbers of either sign (two times in three)
+	if geo := svgGeometry[tag]; geo != nil && rapid.IntRange(0, 2).Draw(t, "geo") != 0 {
+		for _, k := range geo {
+			attrs = " " + k + `="` + SVGNumber(t, hostile) + `"` + attrs
+		}
+	}
 	id := ""
 	if rapid.IntRange(0, 3).Draw(t, "hasid") == 0 {
 		id = fmt.Sprintf(" id=\"%s\"", rapid.SampledFrom([]string{"s1", "u1", "u2", "a", "b"}).Draw(t, "id"))
